@@ -23,13 +23,18 @@ COMMON_TRUSTED = [
 ]
 
 PROPS = {}
+BROKEN = {}   # property id -> why its configuration file could not be loaded
 _d = os.path.join(os.path.dirname(os.path.abspath(__file__)), "props")
 for _f in sorted(os.listdir(_d)):
     if _f.endswith(".py") and _f[0] == "C":
         _spec = importlib.util.spec_from_file_location("props_" + _f[:-3], os.path.join(_d, _f))
         _m = importlib.util.module_from_spec(_spec)
-        _spec.loader.exec_module(_m)
-        _c = dict(_m.CONF)
+        try:
+            _spec.loader.exec_module(_m)
+            _c = dict(_m.CONF)
+        except Exception as _e:  # a broken configuration of one property must not stop the checks of the others
+            BROKEN[_f[:-3]] = "%s: %s" % (type(_e).__name__, _e)
+            continue
         _c.setdefault("glue", "Extract/Glue%s.v" % _f[:-3])
         _c.setdefault("props", "Props/%s.v" % _f[:-3])
         PROPS[_f[:-3]] = _c
